@@ -221,6 +221,25 @@ def run_syntactic(prop, repo, outdir):
                 st = "undischarged"
                 res["undecided"].append(f"syntactic:{fn}:{u.reason[:120]}")
             res["obligations"].append({"id": oid, "kind": "syntactic", "status": st, "weight": 1, "unit": "SYN", "features": "+".join(feats), "backend": "syntactic"})
+    if prop == "C17":
+        # the round-trip clause rests on serde's derive being its own inverse; that assumption only applies when the three
+        # types that end up in the serialised form use the PLAIN derives: no `serde(..)` attribute, no hand-written impl
+        for (f, ident) in (("src/graph_info.rs", "GraphInfo"), ("src/edge.rs", "Edge"), ("src/fn_id_inner.rs", "FnIdInner")):
+            oid = f"SYN/{ident}/C17.serialised-with-the-plain-serde-derives--no-serde-attribute--no-hand-written-impl"
+            try:
+                ex = run_extract(repo, ["async", "graph_info"], [{"name": "x", "file": f, "kind": "serde_attrs", "ident": ident}], outdir)
+                j = json.loads(ex["x"]["text"])
+                st = "discharged"
+                if "Serialize" not in j["derives"] or "Deserialize" not in j["derives"]:
+                    st = "undischarged"
+                    res["undecided"].append(f"syntactic:{ident}:Serialize/Deserialize are not both derived ({j['derives']}, manual impls {j['manual_impls']}): the round-trip assumption does not apply")
+                elif j["serde_attrs"] or j["manual_impls"]:
+                    st = "undischarged"
+                    res["undecided"].append(f"syntactic:{ident}:custom serde behaviour ({(j['serde_attrs'] + j['manual_impls'])[0][:120]}): the round-trip assumption about plain derives does not apply")
+            except Undecided as u:
+                st = "undischarged"
+                res["undecided"].append(f"syntactic:{ident}:{u.reason[:120]}")
+            res["obligations"].append({"id": oid, "kind": "syntactic", "status": st, "weight": 1, "unit": "SYN", "features": "async+graph_info", "backend": "syntactic"})
     if prop == "C09":
         # the four for_each variants read the shared counter through an RwLock: that the outcome state is computed from
         # THAT read (made after the stream ended: it is part of the extracted epilogue, unit U18) is a syntactic condition
@@ -303,7 +322,7 @@ def run_syntactic(prop, repo, outdir):
 
 def run(prop, tier, repo, outdir, seed):
     out = []
-    if prop in ("C02", "C08", "C09", "C10", "C15", "C20"):
+    if prop in ("C02", "C08", "C09", "C10", "C15", "C17", "C20"):
         out.append(run_syntactic(prop, repo, outdir))
     if prop in ("C19", "C20"):
         r = run_typecheck(prop, tier, repo, outdir, seed)
